@@ -834,3 +834,64 @@ Definition stack_memory (t : mthread) (mem : list mregion) : option mregion :=
   | Some b => Some {| mr_base := th_stack_base t; mr_bytes := b |}
   | None => memory_at mem (th_stack_base t)
   end.
+
+(* ------------------------------------------------------------------ the directory as a whole *)
+(* Minidump::read up to and including the directory walk: byte order and the directory entries in
+   file order (type, (data_size, rva)) *)
+Definition read_directory (all : list Z) : option (endian * list (Z * (Z * Z))) :=
+  obnd (detect_endian all) (fun e =>
+  obnd (dec_header e all) (fun h =>
+  match h with
+  | [_; version; count; dir_rva; _; _; _] =>
+      if negb (version mod 65536 =? MINIDUMP_VERSION) then None
+      else obnd (dec_dir e (Z.to_nat count) (if dir_rva <=? zlen all then skipn (Z.to_nat dir_rva) all else []))
+                (fun dir => Some (e, dir))
+  | _ => None
+  end)).
+
+(* `streams: BTreeMap<u32, (u32, MINIDUMP_DIRECTORY)>`: stream type -> (directory index, (size, rva)),
+   kept in ascending order of the type; BTreeMap::insert replaces the value of an existing key *)
+Definition dmap := list (Z * (Z * (Z * Z))).
+Fixpoint dmap_insert (k : Z) (v : Z * (Z * Z)) (l : dmap) : dmap :=
+  match l with
+  | [] => [(k, v)]
+  | (k', v') :: t => if k <? k' then (k, v) :: l
+                     else if k =? k' then (k, v) :: t
+                     else (k', v') :: dmap_insert k v t
+  end.
+Fixpoint dmap_build (i : Z) (d : list (Z * (Z * Z))) (acc : dmap) : dmap :=
+  match d with
+  | [] => acc
+  | (ty, loc) :: r => dmap_build (i + 1) r (dmap_insert ty (i, loc) acc)
+  end.
+(* the map Minidump::read ends up with = what all_streams() iterates over *)
+Definition served_dir (d : list (Z * (Z * Z))) : dmap := dmap_build 0 d [].
+Fixpoint dmap_get (l : dmap) (k : Z) : option (Z * (Z * Z)) :=
+  match l with
+  | [] => None
+  | (k', v) :: t => if k' =? k then Some v else dmap_get t k
+  end.
+(* get_raw_stream(stream_type), for ANY u32: location_slice of the served entry *)
+Definition raw_stream (all : list Z) (d : list (Z * (Z * Z))) (ty : Z) : sres (list Z) :=
+  match dmap_get (served_dir d) ty with
+  | None => SMissing
+  | Some (_, (size, rva)) => match slice all rva size with Some b => SOk b | None => SErr end
+  end.
+(* MINIDUMP_STREAM_TYPE::from_u32(ty).is_some() *)
+Definition is_named (ty : Z) : bool := existsb (Z.eqb ty) ST_ALL_NAMED.
+(* unknown_streams(): the served entries whose type has no name *)
+Definition unknown_streams (d : list (Z * (Z * Z))) : dmap := filter (fun p => negb (is_named (fst p))) (served_dir d).
+(* stream_vendor: 0 Official, 1 Google Extension, 2 Mozilla Extension, 3 Unknown Extension *)
+Definition stream_vendor (ty : Z) : Z :=
+  if ty <=? ST_LastReservedStream then 0
+  else let hi := Z.land ty 4294901760 in
+       if hi =? 1197932544 then 1 else if hi =? 1299841024 then 2 else 3.
+(* the specification side: the last entry of type [ty] in a directory whose first entry has index [i] *)
+Fixpoint last_entry (i : Z) (d : list (Z * (Z * Z))) (ty : Z) : option (Z * (Z * Z)) :=
+  match d with
+  | [] => None
+  | (t, loc) :: r => match last_entry (i + 1) r ty with
+                     | Some x => Some x
+                     | None => if t =? ty then Some (i, loc) else None
+                     end
+  end.
